@@ -149,6 +149,14 @@ func (x *Exec) ghostCall(st *State, name string, args []*Val) {
 		if a != nil && a.K == kScalar {
 			st.ghost[fmt.Sprintf("lastarg:%s:%d", name, i)] = a.T
 		}
+		// a pointer / interface argument is recorded per path by its object identity (what
+		// ref(..) of it denotes), so that it merges like any other ghost value
+		if a != nil && a.K == kPtr && a.L != nil && a.L.Idx == nil && a.L.Path == "" {
+			st.ghost[fmt.Sprintf("lastarg:%s:%d", name, i)] = a.L.Base
+		}
+		if a != nil && a.K == kIface && a.Ptr != nil {
+			st.ghost[fmt.Sprintf("lastarg:%s:%d", name, i)] = a.Ptr
+		}
 		if a != nil {
 			x.lastArgs[fmt.Sprintf("%s:%d", name, i)] = a
 		}
